@@ -232,7 +232,7 @@ var blockNames = map[string]bool{"div": true, "p": true, "br": true, "hr": true,
 
 func wsAfter(n templang.Node) string {
 	switch n.K {
-	case "text", "expr", "void", "el":
+	case "text", "expr", "void", "el", "gocodei":
 		return n.Tr
 	case "slot", "hcomment", "mcomment", "raw", "call", "callb":
 		return n.After
@@ -298,7 +298,7 @@ func separateForced(ns []templang.Node, loose bool) []templang.Node {
 			continue
 		}
 		switch cur.K {
-		case "text", "expr", "void", "el":
+		case "text", "expr", "void", "el", "gocodei":
 			ns[i].Tr = "v"
 		case "slot", "hcomment", "mcomment", "raw", "call", "callb":
 			ns[i].After = "v"
@@ -368,6 +368,19 @@ func failsSrc(s string, kind string) bool {
 }
 
 func attribute(prog []templang.Node, v templang.Variant, kind string) string {
+	{
+		// a call followed by something on its line: when the failure needs that adjacency, the adjacency is the
+		// root cause, whatever else (an unusual spelling of the neighbour) is needed as well
+		b1, _ := json.Marshal(prog)
+		p2 := mapNodes(prog, callsEndTheirLine)
+		b2, _ := json.Marshal(p2)
+		if !bytes.Equal(b1, b2) && !failsWith(p2, v, kind) {
+			if strings.Contains(src(prog, v), "{!") {
+				return "CallTemplateExpression.LegacyCallNotFollowedByLineBreak"
+			}
+			return "CallTemplateExpression.CallFollowedOnTheSameLine"
+		}
+	}
 	if v == 3 {
 		// unusual spellings of single constructs: does the failure disappear when one of them is spelled normally?
 		for _, f := range oddFeatures {
